@@ -44,6 +44,10 @@ MutateB(c) ==
           fin |-> IF c.fin = "x" THEN "xdd" ELSE "dd",
           label |-> IF c.label THEN "mine" ELSE "a"]                 \* a submitted label beats the template's label
 
+\* ---------------- Family D: two admissions by configName of a JobConfig whose template leaves the pending timeout unset, with the
+\* dynamic-config default changed in between: each Job gets the default in force when IT is admitted
+PtD(v) == IF v = -1 THEN BuiltinPT ELSE v
+
 \* ---------------- Family C: sched in {"none","s1","s2","s1off"}; lu classes "unset","past","future"
 StampedC(c) == IF c.new = "none" THEN "nosched"
                ELSE IF c.op = "CREATE" \/ c.old = "none" \/ c.old # c.new THEN (IF c.lu = "future" THEN "future" ELSE "now")   \* created or changed: stamped (a later user value is kept)
